@@ -403,6 +403,84 @@ def check_binned(case):
     return labs, True
 
 
+@st.composite
+def pixel_cases(draw):
+    case = draw(full_cases(layouts=("dense",)))
+    npix = draw(st.integers(2, 3))
+    case["dets"] = [{"det_dir": draw(unit_vector()), "L2": draw(logfloat(-1, 2))} for _ in range(npix)]
+    case["pix_layout"] = draw(st.sampled_from(["outer", "outer", "zip", "pixel-only"]))
+    if case["pix_layout"] == "zip":
+        lam = list(case["lam"])
+        while len(lam) < npix:
+            lam.append(lam[-1] * 1.25 + 0.5)
+        case["lam"] = lam[:npix]
+    elif case["pix_layout"] == "pixel-only":
+        case["lam"] = case["lam"][:1]
+    case["fn"] = draw(st.sampled_from(["scattering_angles_with_gravity", "scattering_angles_with_gravity",
+                                       "scattering_angle_in_yz_plane"]))
+    if case["fn"] == "scattering_angle_in_yz_plane":
+        case["tilt"] = 0.0
+        if case["g_axis"] is None:
+            case["g_axis"], case["g_dir"] = 2, None
+    return case
+
+
+def check_pixels(case):
+    """Per-pixel scattered beams (array of vectors) with a wavelength array: outer product of the two
+    dims, both on the pixel dim, or a 0-d wavelength.  Every (pixel, wavelength) element is compared
+    with the documented construction for that pixel."""
+    import scipp as sc
+    from scippneutron.conversion import beamline as bl
+
+    sub = [dict(case, det_dir=d["det_dir"], L2=d["L2"]) for d in case["dets"]]
+    g, b1, _ = vectors(sub[0])
+    b2 = np.array([vectors(c)[2] for c in sub])
+    lam = stored_lambda(case)
+    layout = case["pix_layout"]
+    if layout == "outer":
+        wl = sc.array(dims=["wavelength"], values=lam, unit=case["lam_unit"], dtype=case["lam_dtype"])
+    elif layout == "zip":
+        wl = sc.array(dims=["pixel"], values=lam, unit=case["lam_unit"], dtype=case["lam_dtype"])
+    else:
+        wl = sc.scalar(lam[0], unit=case["lam_unit"], dtype=case["lam_dtype"])
+    out = getattr(bl, case["fn"])(
+        incident_beam=sc.vector(b1, unit=case["b1_unit"]),
+        scattered_beam=sc.vectors(dims=["pixel"], values=b2, unit=case["b2_unit"]),
+        wavelength=wl, gravity=sc.vector(g, unit="m/s^2"))
+    outs = {"two_theta": out["two_theta"], "phi": out["phi"]} if isinstance(out, dict) else {"gamma": out}
+    npix = len(sub)
+    want_dims = {"outer": {"pixel", "wavelength"}, "zip": {"pixel"}, "pixel-only": {"pixel"}}[layout]
+    refs_all = []
+    for name, var in outs.items():
+        if set(var.dims) != want_dims:
+            raise Violation("dims", f"{name} has dims {var.dims}, expected {sorted(want_dims)}")
+        arr = var.transpose(["pixel", "wavelength"]).values if layout == "outer" else var.values.reshape(npix, 1)
+        for i, c in enumerate(sub):
+            lam_i = lam if layout == "outer" else ([lam[i]] if layout == "zip" else [lam[0]])
+            refs = reference(c, lam_i)
+            refs_all += refs
+            for j, r in enumerate(refs):
+                got = float(arr[i, j])
+                tol = tol_for(case, r)
+                key = name
+                if name == "phi":
+                    if r["rho_rel"] <= mp.mpf("1e-6"):
+                        continue
+                    tol = tol / min(r["rho_rel"], 1)
+                elif name == "gamma":
+                    if r["yz_rho_rel"] < mp.mpf("1e-6"):
+                        continue
+                    tol = tol / min(r["yz_rho_rel"], 1)
+                e = angle_err(got, r[key])
+                if name == "phi":
+                    e = min(e, abs(e - 2 * mp.pi))
+                if not math.isfinite(got) or e > tol:
+                    raise Violation(name, f"pixel {i}, wavelength {j} ({layout} layout): {name} = {got!r}, documented "
+                                          f"construction gives {mp.nstr(r[key], 17)}; error {mp.nstr(e, 3)} > {mp.nstr(tol, 3)}")
+    labs, vis = labels_of(case, refs_all)
+    return [*labs, "pix_layout:" + layout, "fn:" + case["fn"], f"npix:{npix}"], vis
+
+
 def m_general_path_sign(case, v):
     return v.kind in ("two_theta", "discontinuous", "not-larger") and (case.get("tilt", 0.0) != 0.0 or "eps" in case)
 
@@ -422,6 +500,9 @@ FACETS = [
     Facet("yz_plane", check_yz, strategy=lambda tier: yz_cases(),
           quick=(2, 300), thorough=(16, 3000), min_nontrivial=0.3,
           doc="reflectometry variant = atan2(|y_d + delta|, z_d); refuses tilt >= 1e-6, accepts tilt 0"),
+    Facet("pixel_arrays", check_pixels, strategy=lambda tier: pixel_cases(),
+          quick=(2, 250), thorough=(16, 2500), min_nontrivial=0.3,
+          doc="per-pixel scattered beams with wavelength on its own dim (outer product), on the pixel dim, or 0-d"),
     Facet("binned", check_binned, strategy=lambda tier: binned_cases(),
           quick=(2, 200), thorough=(16, 2000), min_nontrivial=0.3,
           doc="binned wavelengths give per-event values identical to dense ones"),
